@@ -143,6 +143,14 @@ func c19Read(rt *rapid.T, d *ofbase.Decoder, ops []c19op, i, j, abs0, depth int,
 		if depth < 3 && j-k >= 1 && gen.Pick(rt, "slice?", 4) == 0 {
 			l := k + rapid.IntRange(1, j-k).Draw(rt, "slice_len")
 			nbytes := ops[l-1].end - ops[k].start
+			// an element whose length excludes its padding: the window ends where the trailing
+			// align starts, the align is issued inside the window (its target lies beyond the
+			// window's end) and the parent steps over the padding itself
+			padOutside := 0
+			if ops[l-1].kind == 6 && ops[l-1].end > ops[l-1].start && rapid.Bool().Draw(rt, "window_excludes_padding") {
+				padOutside = ops[l-1].end - ops[l-1].start
+				nbytes -= padOutside
+			}
 			rewind := rapid.IntRange(0, 9).Draw(rt, "rewind")
 			before := d.Offset()
 			wantBase := ops[k].start
@@ -160,8 +168,24 @@ func c19Read(rt *rapid.T, d *ofbase.Decoder, ops []c19op, i, j, abs0, depth int,
 			if f := c19Read(rt, sub, ops, k, l, wantBase, depth+1, plan); f != nil {
 				return f
 			}
-			if sub.Length() != 0 {
-				return &c19fail{"C19|SliceDecoder|leftover", fmt.Sprintf("%d bytes left in the slice after reading its ops", sub.Length())}
+			if sub.Length() != -padOutside {
+				return &c19fail{"C19|SliceDecoder|leftover", fmt.Sprintf("%d bytes left in the slice after reading its ops (want %d)", sub.Length(), -padOutside)}
+			}
+			// nothing decodes as a header from an exhausted window, whatever lies behind it in the parent
+			var h ofbase.Header
+			if err := h.Decode(sub); err == nil {
+				return &c19fail{"C19|Header.Decode|short-accepted", fmt.Sprintf("a window with %d bytes left (parent has more behind it) gave a header %+v", sub.Length(), h)}
+			}
+			if padOutside > 0 {
+				*plan = append(*plan, fmt.Sprintf("parent skips %d pad", padOutside))
+				if rapid.Bool().Draw(rt, "parent_align") {
+					d.SkipAlign()
+				} else {
+					d.Skip(padOutside)
+				}
+				if abs0+d.Offset() != ops[l-1].end {
+					return &c19fail{"C19|Decoder.SkipAlign|misaligned", fmt.Sprintf("parent after stepping over %d pad bytes at absolute %d, model at %d", padOutside, abs0+d.Offset(), ops[l-1].end)}
+				}
 			}
 			k = l
 			continue
@@ -341,6 +365,31 @@ func c19Sweeps(c *ev.Collector) {
 		}
 	}
 	c.Exhaustive("Decoder.SkipAlign over base 0..56 x offset 0..40 via two-level slicing")
+	// (1b) the same at and near the end of short windows: the target of the skip may lie beyond the
+	// window (an element whose length excludes its padding), the rule is the same
+	for base := 0; base <= 24; base++ {
+		for wlen := 0; wlen <= 17; wlen++ {
+			for off := 0; off <= wlen; off++ {
+				c.Eval()
+				c.NonTrivial(ev.HashStr("align-end", fmt.Sprint(base, wlen, off)))
+				fr, msg := safeCall(func() {
+					d := ofbase.NewDecoder(buf)
+					d.Skip(base)
+					w := d.SliceDecoder(wlen, 0)
+					w.Skip(off)
+					w.SkipAlign()
+					adv := w.Offset() - off
+					if adv < 0 || adv > 7 || (base+w.Offset())%8 != 0 {
+						c.Report(nil, "C19|Decoder.SkipAlign|misaligned", fmt.Sprintf("base %d window %d offset %d: moved by %d to absolute %d", base, wlen, off, adv, base+w.Offset()), nil)
+					}
+				})
+				if fr != "" {
+					c.Report(nil, "C19|Decoder|panic|"+fr, msg, nil)
+				}
+			}
+		}
+	}
+	c.Exhaustive("Decoder.SkipAlign over base 0..24 x window 0..17 x every offset in the window")
 	// (2) Encoder.SkipAlign at every length
 	for n := 0; n <= 64; n++ {
 		c.Eval()
@@ -367,29 +416,43 @@ func c19Sweeps(c *ev.Collector) {
 		for n := 0; n <= 16; n++ {
 			c.Eval()
 			c.NonTrivial(ev.HashStr("hdr", fmt.Sprint(start, n)))
-			data := make([]byte, start+n)
-			for i := range data {
-				data[i] = byte(0x11*(i+1)) ^ 0x5a
-			}
-			var h ofbase.Header
-			var err error
-			fr, msg := safeCall(func() {
-				d := ofbase.NewDecoder(data)
-				d.Skip(start)
-				err = h.Decode(d)
-			})
-			cs := fmt.Sprintf("start=%d remaining=%d", start, n)
-			switch {
-			case fr != "":
-				c.Report(nil, "C19|Header.Decode|panic", cs+": "+msg, cs)
-			case n < 8 && err == nil:
-				c.Report(nil, "C19|Header.Decode|short-accepted", cs+": no error from a header of fewer than 8 bytes", cs)
-			case n >= 8 && err != nil:
-				c.Report(nil, "C19|Header.Decode|rejected", cs+": "+err.Error(), cs)
-			case n >= 8:
-				p := data[start:]
-				if h.Version != p[0] || h.Type != p[1] || h.Length != binary.BigEndian.Uint16(p[2:]) || h.Xid != binary.BigEndian.Uint32(p[4:]) {
-					c.Report(nil, "C19|Header.Decode|value-mismatch", fmt.Sprintf("%s: %+v from %x", cs, h, p[:8]), cs)
+			for backing := 0; backing < 3; backing++ {
+				// 0: a buffer of exactly that size; 1: the head of a larger receive buffer (spare
+				// capacity behind the data); 2: a window cut out of the middle of a parent decoder
+				big := make([]byte, start+n+32)
+				for i := range big {
+					big[i] = byte(0x11*(i+1)) ^ 0x5a
+				}
+				data := big[:start+n]
+				if backing == 0 {
+					data = append([]byte{}, data...)
+				}
+				if backing > 0 {
+					c.Eval()
+				}
+				var h ofbase.Header
+				var err error
+				fr, msg := safeCall(func() {
+					d := ofbase.NewDecoder(data)
+					if backing == 2 {
+						d = ofbase.NewDecoder(big).SliceDecoder(start+n, 0)
+					}
+					d.Skip(start)
+					err = h.Decode(d)
+				})
+				cs := fmt.Sprintf("start=%d remaining=%d backing=%d", start, n, backing)
+				switch {
+				case fr != "":
+					c.Report(nil, "C19|Header.Decode|panic", cs+": "+msg, cs)
+				case n < 8 && err == nil:
+					c.Report(nil, "C19|Header.Decode|short-accepted", cs+": no error from a header of fewer than 8 bytes", cs)
+				case n >= 8 && err != nil:
+					c.Report(nil, "C19|Header.Decode|rejected", cs+": "+err.Error(), cs)
+				case n >= 8:
+					p := data[start:]
+					if h.Version != p[0] || h.Type != p[1] || h.Length != binary.BigEndian.Uint16(p[2:]) || h.Xid != binary.BigEndian.Uint32(p[4:]) {
+						c.Report(nil, "C19|Header.Decode|value-mismatch", fmt.Sprintf("%s: %+v from %x", cs, h, p[:8]), cs)
+					}
 				}
 			}
 		}
